@@ -44,8 +44,14 @@ WEEKDAY = ClassStub(_new=_weekday_member, _isa=lambda v: isinstance(v, WD), MOND
 def _shift(d: _dt.date, years=0, months=0, weeks=0, days=0) -> _dt.date:
     y, mth = d.year + years, d.month + months
     y, mth = y + (mth - 1) // 12, (mth - 1) % 12 + 1
-    day = min(d.day, _calendar.monthrange(y, mth)[1])
-    return _dt.date(y, mth, day) + _dt.timedelta(days=days + 7 * weeks)
+    try:
+        day = min(d.day, _calendar.monthrange(y, mth)[1])
+        return _dt.date(y, mth, day) + _dt.timedelta(days=days + 7 * weeks)
+    except (ValueError, OverflowError) as e:
+        # beyond the first / last date of the calendar: what the standard library raises there is an outcome of the analysed code (add() / subtract()
+        # end in date arithmetic of the standard library)
+        from .minieval import Raised
+        raise Raised(f"raise reached: {type(e).__name__}: {e}", "OverflowError" if isinstance(e, OverflowError) or "out of range" in str(e) else type(e).__name__) from None
 
 
 class World:
